@@ -71,6 +71,7 @@ func profileOf(name string) profileCfg {
 	case "observers":
 		c.minObs, c.maxObs = 3, 8
 		m["obs"], m["otoggle"], m["emit"], m["set"], m["relbatch"], m["setrel"], m["xchgb"], m["setrelb"] = 4, 4, 3, 2, 3, 2, 3, 2
+		m["obschurn"] = 4
 	case "relations":
 		m["setrel"], m["setrelb"], m["del"], m["delb"], m["shrink"], m["staleq"] = 3, 3, 2, 2, 2, 4
 	case "batch":
@@ -1135,6 +1136,9 @@ func (g *Gen) opFilterReg() bool {
 func (g *Gen) opNewBatch() bool {
 	names := g.regNames()
 	cnt := 1 + g.pick(5)
+	if g.chance(0.05) {
+		cnt = 0 // an empty batch still finds or creates its table and registers its relation targets
+	}
 	l := g.nextEnt
 	g.nextEnt += cnt
 	for i := 0; i < cnt; i++ {
@@ -1156,6 +1160,56 @@ func (g *Gen) opNewBatch() bool {
 	}
 	// all entities of a batch share the same values
 	g.emit(fmt.Sprintf("newb e%d %d %s %s %s", l, cnt, p, fn, g.compTokens(cs, true, 0.02, 0.03)))
+	return true
+}
+
+// opBatchTarget: a batch (often EMPTY) that names a fresh entity as relation target, the removal of that
+// target, and the removed entity named as target again through the ID-based API, which must be rejected
+// (C10) — the bookkeeping for a target must not depend on how many entities the batch created (C04).
+func (g *Gen) opBatchTarget() bool {
+	var rels []int
+	for _, n := range g.regNames() {
+		if g.isRel(n) {
+			rels = append(rels, n)
+		}
+	}
+	if len(rels) == 0 {
+		return false
+	}
+	g.drainQueries()
+	t := g.nextEnt
+	g.nextEnt++
+	g.ents = append(g.ents, t)
+	g.emit(fmt.Sprintf("new0 e%d", t))
+	r := rels[g.pick(len(rels))]
+	cnt := 0
+	if g.chance(0.4) {
+		cnt = 1 + g.pick(2)
+	}
+	l := g.nextEnt
+	g.nextEnt += cnt
+	for i := 0; i < cnt; i++ {
+		g.ents = append(g.ents, l+i)
+	}
+	fn := "fn"
+	if g.chance(0.5) {
+		fn = "nofn"
+	}
+	tok := fmt.Sprintf("c%d>e%d", r, t)
+	if g.chance(0.5) {
+		tok = fmt.Sprintf("c%d:%d>e%d", r, g.val(), t)
+	}
+	g.emit(fmt.Sprintf("newb e%d %d m %s %s", l, cnt, fn, tok))
+	g.emit(fmt.Sprintf("del e%d", t))
+	g.emit("stats")
+	// the removed entity as relation target, through the ID-based API
+	l2 := g.nextEnt
+	g.nextEnt++
+	g.ents = append(g.ents, l2)
+	g.emit(fmt.Sprintf("new e%d u %s", l2, tok))
+	if cnt > 0 && g.chance(0.5) {
+		g.emit(fmt.Sprintf("setrel e%d u c%d>e%d", l, r, t))
+	}
 	return true
 }
 
@@ -1474,6 +1528,84 @@ func (g *Gen) opObsToggle() bool {
 	return true
 }
 
+// opObsChurn: several observers of ONE event type — a mix of wildcard observers (no For, no With)
+// and observers with components — registered, then some of them un-registered in random order,
+// followed by operations that trigger the event. The manager's per-event aggregates (union masks,
+// wildcard flags, the early-outs built on them) depend on the registration history; whether a
+// registered observer fires must not (C08).
+func (g *Gen) opObsChurn() bool {
+	if g.cfg.maxObs == 0 {
+		return false
+	}
+	names := g.regNames()
+	if len(names) == 0 {
+		return false
+	}
+	events := []string{"create", "remove", "add", "rem", "set"}
+	ev := events[g.pick(len(events))]
+	if g.chance(0.15) && len(g.customEvents) > 0 {
+		ev = fmt.Sprint(g.customEvents[g.pick(len(g.customEvents))])
+	}
+	n := 3 + g.pick(3)
+	var ls []int
+	for i := 0; i < n; i++ {
+		l := g.nextObs
+		g.nextObs++
+		line := fmt.Sprintf("obs o%d %s", l, ev)
+		if !g.chance(0.35) { // otherwise a wildcard observer
+			if g.chance(0.7) {
+				line += " for=" + joinComps(g.subset(names, 1, 1))
+			}
+			if g.chance(0.4) {
+				line += " with=" + joinComps(g.subset(names, 1, 1))
+			}
+		}
+		line += " script=look"
+		g.emit(line)
+		g.obsLabels = append(g.obsLabels, l)
+		g.emit(fmt.Sprintf("oreg o%d", l))
+		ls = append(ls, l)
+	}
+	g.rng.Shuffle(len(ls), func(i, j int) { ls[i], ls[j] = ls[j], ls[i] })
+	k := 1 + g.pick(n-1)
+	for _, l := range ls[:k] {
+		g.emit(fmt.Sprintf("ounreg o%d", l))
+	}
+	for i := 0; i < 5; i++ {
+		switch ev {
+		case "create":
+			g.opNew()
+		case "remove":
+			if i%2 == 0 {
+				g.opNew()
+			} else {
+				g.opDel()
+			}
+		case "add":
+			if i == 0 {
+				g.opNew()
+			} else {
+				g.opAdd()
+			}
+		case "rem":
+			if i == 0 {
+				g.opNew()
+			} else {
+				g.opRem()
+			}
+		case "set":
+			if i == 0 {
+				g.opNew()
+			} else {
+				g.opSet()
+			}
+		default:
+			g.opEmit()
+		}
+	}
+	return true
+}
+
 func (g *Gen) opEmit() bool {
 	if len(g.customEvents) == 0 {
 		return false
@@ -1728,7 +1860,7 @@ func (g *Gen) Run(nseq, nops int) {
 				g.newObserver()
 				return true
 			}},
-			{"otoggle", 2, g.opObsToggle}, {"emit", 3, g.opEmit},
+			{"otoggle", 2, g.opObsToggle}, {"emit", 3, g.opEmit}, {"obschurn", 1, g.opObsChurn},
 			{"stats", 2, func() bool { g.emit("stats"); return true }},
 			{"shrink", 2, func() bool {
 				if g.chance(0.5) {
@@ -1771,6 +1903,7 @@ func (g *Gen) Run(nseq, nops int) {
 			{"tuplescn", 1, g.opTupleScenario},
 			{"locked", 1, func() bool { g.emit("locked"); return true }},
 			{"bigtable", 1, g.opBigTable},
+			{"batchtarget", 1, g.opBatchTarget},
 			{"lockexh", 1, g.opLockExhaustion},
 		}
 		total := 0
